@@ -791,6 +791,13 @@ func (p *Prefix) choose(s *Sched, n int, kind string, self bool, en []*Thread) i
 	if en != nil {
 		ch.Thread = en[c].id
 	}
+	if os.Getenv("VS_DEBUG_PREFIX") != "" && idx <= 8 {
+		ids := []string{}
+		for _, t := range en {
+			ids = append(ids, t.id+":"+s.opString(t.pending))
+		}
+		fmt.Fprintf(os.Stderr, "CHOICE idx=%d kind=%s n=%d c=%d en=%v\n", idx, kind, n, c, ids)
+	}
 	s.Choices = append(s.Choices, ch)
 	return c
 }
